@@ -439,6 +439,19 @@ var pageType = utils.PageElement{Side: "right", First: true, Index: 0}
 
 // styles builds the style objects of the document with the real code (fresh, nothing read yet).
 func (d *doc) styles(tc *textCtx) ([]pr.ElementStyle, error) {
+	st, _, err := d.stylesPub(tc)
+	return st, err
+}
+
+// stylesPub also returns, per style, a function reading it through the public accessor StyleFor.Get
+// (nil for anonymous styles).
+func (d *doc) stylesPub(tc *textCtx) ([]pr.ElementStyle, []func() pr.ElementStyle, error) {
+	var pub []func() pr.ElementStyle
+	st, err := d.styles0(tc, &pub)
+	return st, pub, err
+}
+
+func (d *doc) styles0(tc *textCtx, pub *[]func() pr.ElementStyle) ([]pr.ElementStyle, error) {
 	h, err := tree.NewHTML(utils.InputString(d.src), "", nil, "")
 	if err != nil {
 		return nil, err
@@ -467,23 +480,31 @@ func (d *doc) styles(tc *textCtx) ([]pr.ElementStyle, error) {
 		}
 	}
 	out := make([]pr.ElementStyle, len(d.nodes))
+	*pub = make([]func() pr.ElementStyle, len(d.nodes))
 	for _, n := range d.nodes {
 		var st pr.ElementStyle
+		var el tree.Element
+		pseudo := ""
 		switch n.kind {
 		case "elem":
 			e := els[fmt.Sprintf("n%d", n.id)]
 			if e == nil {
 				return nil, fmt.Errorf("element n%d not found", n.id)
 			}
-			st = tree.VerifC04RawStyle(sf, e, "")
+			el = e
 		case "before", "after":
-			st = tree.VerifC04RawStyle(sf, els[fmt.Sprintf("n%d", n.parent)], n.kind)
+			el, pseudo = els[fmt.Sprintf("n%d", n.parent)], n.kind
 		case "page":
-			st = tree.VerifC04RawStyle(sf, pageType, "")
+			el = pageType
 		case "margin":
-			st = tree.VerifC04RawStyle(sf, pageType, "@top-left")
+			el, pseudo = pageType, "@top-left"
 		case "anon":
 			st = tree.ComputedFromCascaded(nil, nil, out[n.parent], ctx)
+		}
+		if el != nil {
+			st = tree.VerifC04RawStyle(sf, el, pseudo)
+			el, pseudo := el, pseudo
+			(*pub)[n.id] = func() pr.ElementStyle { return sf.Get(el, pseudo) }
 		}
 		if st == nil {
 			return nil, fmt.Errorf("no style for node %d (%s)", n.id, n.kind)
@@ -672,6 +693,46 @@ type corpusCase struct {
 	} `json:"expect"`
 }
 
+// Replay re-runs the single generated case recorded in a replay file (finding.seed, input.fonts).
+func Replay(path string, modelPath, repo string, out *res.Result) error {
+	b, err := os.ReadFile(path)
+	if err != nil {
+		return err
+	}
+	var rp struct {
+		Finding struct {
+			Seed  uint64          `json:"seed"`
+			Input json.RawMessage `json:"input"`
+		} `json:"finding"`
+	}
+	if err := json.Unmarshal(b, &rp); err != nil {
+		return err
+	}
+	var in struct {
+		Fonts bool `json:"fonts"`
+	}
+	json.Unmarshal(rp.Finding.Input, &in)
+	render.Quiet()
+	m, err := mp.Start(modelPath)
+	if err != nil {
+		return err
+	}
+	defer m.Close()
+	directedStyleFor(out)
+	if rp.Finding.Seed == 0 {
+		return nil
+	}
+	fonts, err := render.NewFonts(repo)
+	if err != nil {
+		return err
+	}
+	u := newUniverse()
+	cr := rng.New(rp.Finding.Seed)
+	d := u.genDoc(cr, in.Fonts)
+	out.Rule = "replay of one generated case"
+	return u.runDoc(m, cr, d, fonts, 200, rp.Finding.Seed, out)
+}
+
 // Run is the runner entry.
 func Run(tier string, seed uint64, modelPath, repo string, out *res.Result) error {
 	render.Quiet()
@@ -849,6 +910,21 @@ func (u *universe) runDoc(m *mp.Model, r *rng.R, d *doc, fonts text.FontConfigur
 			valA[n.id][p] = stA[n.id].Get(pr.KnownProp(p).Key())
 		}
 	}
+	// float32 rounding at a discontinuity is outside the model (exact rationals): `larger` / `smaller`
+	// compare the parent's font size with the keyword ladder; when the real parent size is within
+	// 2^-18 (relative) of a ladder value without being equal to it, the tree is skipped
+	for _, n := range d.nodes {
+		if dv, ok := n.decls[pr.PFontSize].(pr.DimOrS); ok && (dv.S == "larger" || dv.S == "smaller") && n.parent >= 0 {
+			if pf, ok := valA[n.parent][pr.PFontSize].(pr.DimOrS); ok {
+				for _, k := range pr.FontSizeKeywords {
+					if diff := math.Abs(float64(pf.Value) - float64(k)); diff != 0 && diff <= float64(k)/(1<<18) {
+						out.Hit("skipped:tree-at-float-boundary-of-larger/smaller")
+						return nil
+					}
+				}
+			}
+		}
+	}
 	// run B: shuffled
 	reqs := make([]req, 0, len(d.nodes)*(N-1))
 	for _, n := range d.nodes {
@@ -894,6 +970,12 @@ func (u *universe) runDoc(m *mp.Model, r *rng.R, d *doc, fonts text.FontConfigur
 					Reason: "the value returned by Get depends on the order of the Get calls", Key: pr.KnownProp(p).String(), Seed: caseSeed})
 			}
 		}
+	}
+	// judge: the public accessor StyleFor.Get returns the same values in a third, shuffled order.
+	// Skipped: margin-* / padding-* on styles with an ancestor-or-self to which StyleFor.Get applies
+	// its table override (the recorded finding KF04-1/2, replayed by directedStyleFor).
+	if err := d.publicPass(r, valA, input, out, caseSeed); err != nil {
+		return err
 	}
 	// ex / ch ratios as the real text engine measures them
 	g := &registry{tags: map[string]int{}}
@@ -1044,4 +1126,55 @@ func directedStyleFor(out *res.Result) {
 				Reason: "`inherit` must give the parent's computed value whatever the access order; StyleFor.Get writes the table padding/margin override into the parent's cached style", Key: c.name})
 		}
 	}
+}
+
+var boxProps = map[pr.KnownProp]bool{
+	pr.PMarginTop: true, pr.PMarginBottom: true, pr.PMarginLeft: true, pr.PMarginRight: true,
+	pr.PPaddingTop: true, pr.PPaddingBottom: true, pr.PPaddingLeft: true, pr.PPaddingRight: true,
+}
+
+func (d *doc) publicPass(r *rng.R, valA [][]pr.CssProperty, input func(*node, pr.KnownProp) map[string]interface{}, out *res.Result, caseSeed uint64) error {
+	if d.fonts {
+		return nil // the fontless half of the trees is enough here
+	}
+	_, pub, err := d.stylesPub(nil)
+	if err != nil {
+		return err
+	}
+	// does StyleFor.Get override box properties on this style?
+	overridden := make([]bool, len(d.nodes))
+	for _, n := range d.nodes {
+		disp, _ := valA[n.id][pr.PDisplay].(pr.Display)
+		bc, _ := valA[n.id][pr.PBorderCollapse].(pr.String)
+		own := (disp.Has("table") && bc == "collapse") ||
+			(disp[1] == "" && disp[2] == "" && strings.HasPrefix(disp[0], "table-") && disp[0] != "table-caption")
+		overridden[n.id] = own || (n.parent >= 0 && overridden[n.parent])
+	}
+	N := int(pr.NbProperties)
+	var reqs []req
+	for _, n := range d.nodes {
+		if pub[n.id] == nil {
+			continue
+		}
+		for p := 1; p < N; p++ {
+			reqs = append(reqs, req{n.id, pr.KnownProp(p)})
+		}
+	}
+	for i := len(reqs) - 1; i > 0; i-- {
+		j := r.Intn(i + 1)
+		reqs[i], reqs[j] = reqs[j], reqs[i]
+	}
+	for _, q := range reqs {
+		v := pub[q.node]().Get(q.p.Key())
+		if boxProps[q.p] && overridden[q.node] {
+			out.Hit("public:skipped-table-override")
+			continue
+		}
+		out.Hit("public:compared")
+		if sprint(v) != sprint(valA[q.node][q.p]) {
+			out.Add(res.Finding{Kind: "judge", Op: "judge:public-get-order", Input: input(d.nodes[q.node], q.p), Impl: sprint(v), Model: sprint(valA[q.node][q.p]),
+				Reason: "StyleFor.Get(..).Get(p) read in a shuffled order differs from the stored computed value", Key: q.p.String(), Seed: caseSeed})
+		}
+	}
+	return nil
 }
